@@ -421,7 +421,9 @@ class Sub:
         probs = []
         if "anyOf" in schema:
             if isinstance(sh, SAny):
-                probs.append(f"{where}: anyOf cannot accept an arbitrary document")
+                # an arbitrary document is accepted iff some branch accepts every document
+                if not any(not self.chk(b, sh, where) for b in schema["anyOf"]):
+                    probs.append(f"{where}: no branch of anyOf accepts an arbitrary document")
             else:
                 alts = [self.chk(b, sh, where) for b in schema["anyOf"]]
                 if all(a for a in alts):
@@ -950,8 +952,24 @@ def bounded_task(payload):
         build.drop_module(mod)
 
 
+def schema_types(tier):
+    ts = list(SCHEMA_TYPES)
+    if tier == "thorough":
+        # depth-2 compositions of every untagged shape (tagged ones are the recorded findings)
+        inner = [t for t in SCHEMA_TYPES if t not in KNOWN_TAGS and t not in ("type(None)",)]
+        for t in inner:
+            ts += [f"List[{t}]", f"Dict[str, {t}]", f"Optional[{t}]", f"Tuple[{t}, ...]", f"Tuple[int, {t}]"]
+    seen, out = set(), []
+    for t in ts:
+        if t not in seen:
+            seen.add(t)
+            out.append(t)
+    return out
+
+
 def check06(pid, tier):
     t0 = time.time()
+    SCHEMA_TYPES = schema_types(tier)  # noqa: shadows the module list on purpose
     res = runner.run_pool(c06_task, [(pid, t) for t in SCHEMA_TYPES], chunks=2)
     obs, crashes = [], []
     for r in res:
@@ -1362,7 +1380,7 @@ def check20(pid, tier):
         import traceback
 
         crashes.append(f"S13: {type(e).__name__}: {e}\n{traceback.format_exc()[-600:]}")
-    payloads = [(pid, "type", t) for t in SCHEMA_TYPES]
+    payloads = [(pid, "type", t) for t in schema_types(tier)]
     flds = C20_FIELDS if tier == "thorough" else C20_FIELDS
     payloads += [(pid, "config", (c, f)) for c in C20_CONFIGS for f in flds]
     # the same registrations in a module with postponed evaluation of annotations (PEP 563): return annotations are strings
